@@ -179,6 +179,9 @@ type worker struct {
 	wl     string
 	// planWrap, when set, wraps the plan of the next direct run
 	planWrap func(*univ.SeedPlan) univ.Plan
+	// hung: goroutines of the last HTTP case that kept its response open although every resolver
+	// had returned and the client was still connected
+	hung []gdump.G
 }
 
 func (w *worker) count(k string, n int64) { w.cr.Counts[k] += n }
@@ -517,6 +520,11 @@ func (w *worker) transports() {
 		`{ as(n: 3) { vid rs rbl { vid rs } } }`,
 		`{ an { vid ... @defer { rs bo { vid ... @defer(label: "in") { rs } } ri } } }`,
 		`{ as(n: 2) { vid ... @defer(label: "g") { rs rbl { vid ... @defer { rs } } } } }`,
+		// objects that carry deferred groups AND non-null fields that may fail (every other round
+		// injects resolver errors and panics): an object nulled by its own field must not leave the
+		// response waiting for groups that were counted but never started
+		`{ an { vid rsn ... @defer { rs ri } bn { vid ... @defer(label: "b") { rs } } } }`,
+		`{ as(n: 3) { rsn ... @defer { rs } rblnn { vid ... @defer { rs a { rsn ... @defer { ri } } } } } }`,
 		// requests the transport refuses before any execution: whatever it set up for the response
 		// (tickers, aggregators) must be torn down on these paths too
 		`{ nosuchfield }`,
@@ -535,6 +543,9 @@ func (w *worker) transports() {
 				for _, mode := range []string{"complete", "disconnect", "server-cancel"} {
 					n++
 					p := &univ.SeedPlan{Seed: uint64(ev.Seed())*977 + uint64(n), MaxList: 3, SchedMode: 2}
+					if round%2 == 1 {
+						p.ErrPermille, p.PanPermille = 250, 60
+					}
 					run := &univ.Run{Plan: p}
 					id := fmt.Sprint("r", n)
 					runs.Store(id, run)
@@ -549,12 +560,24 @@ func (w *worker) transports() {
 							p.CancelAt = map[string]bool{clean.Invocations[len(clean.Invocations)/2]: true}
 						}
 					}
-					if w.cr.Counts["transport_hangs_observed"] >= 3 && mode == "server-cancel" {
+					if w.cr.Counts["transport_hangs_observed"] >= 3 {
 						w.count("cases_skipped_after_repeated_hangs", 1)
 						runs.Delete(id)
 						continue
 					}
+					w.hung = nil
 					timedOut := w.httpCase(ts.URL, id, q, tr, mode)
+					if timedOut && len(w.hung) > 0 {
+						for _, g := range w.hung {
+							w.ignore[g.ID] = true
+						}
+						w.cr.Violations = append(w.cr.Violations, violation{hangSig(w.hung) + "-over-" + tr, map[string]any{
+							"why": "every resolver returned and the client stayed connected, but the " + tr + " response never finished (" + mode + "): the goroutines serving it persist", "probe": w.name, "query": q, "goroutines": dumpText(w.hung)}})
+						w.count("transport_hangs_observed", 1)
+						runs.Delete(id)
+						w.cr.Evals++
+						continue
+					}
 					if timedOut {
 						// the response did not finish: if no resolver is inside user code and the handler is
 						// parked in gqlgen/generated frames twice in a row, it never will
@@ -653,6 +676,25 @@ func (w *worker) httpCase(base, id, q, tr, mode string) bool {
 	n, rerr := io.Copy(io.Discard, conn)
 	w.count("transport_bytes_read", n)
 	if ne, ok := rerr.(net.Error); ok && ne.Timeout() {
+		// The client is still connected and nothing cancelled the request. If no resolver is inside
+		// user code and the goroutines serving this response exist at every look for 3 more seconds,
+		// gqlgen alone keeps the response open (a blocked handler next to a keep-alive / flush
+		// ticker never gives one stable picture: WaitGone cannot decide that).
+		if v, ok := runs.Load(id); ok {
+			run := v.(*univ.Run)
+			for i := 0; i < 200 && run.Open() > 0; i++ {
+				time.Sleep(10 * time.Millisecond)
+			}
+			if run.Open() == 0 {
+				var cur []gdump.G
+				for _, g := range gdump.Match(gdump.All(), patterns, nil) {
+					if !w.ignore[g.ID] {
+						cur = append(cur, g)
+					}
+				}
+				w.hung = gdump.Persisting(cur, patterns, nil, 3*time.Second, 100*time.Millisecond)
+			}
+		}
 		return true
 	}
 	return false
